@@ -52,8 +52,35 @@ func c15Setup(c *Ctx) (*world.World, run.Env) {
 		c.Count("world.format."+w.Format, 1)
 	}
 	c.SigMix(w.Hash())
-	return w, baseEnv(c)
+	env := baseEnv(c)
+	// the probe may itself be the near-copy of the world just drawn (one flag flipped, one string in
+	// another letter case, ...): the history then runs the original - the direction in which a lossy
+	// process-wide key serves the probe what an earlier, slightly different schema has left
+	c15Base = nil
+	if c.T.Chance("c15.probe-is-the-near-copy", 1, 5) {
+		for try := 0; try < 3; try++ {
+			ns, d := simio.SiblingJSON(c.T, w.Schema)
+			if d == "" {
+				continue
+			}
+			env.Apply()
+			if s, es, ps := run.NewSchema("sim-schema", ns); s == nil || es != "" || ps != "" {
+				continue
+			}
+			c15Base = w
+			nw := w.Clone()
+			nw.Schema = ns
+			nw.Name = w.Name + " with " + d
+			w = nw
+			c.Count("probe.is-a-near-copy-of-a-world-run-in-the-history", 1)
+			break
+		}
+	}
+	return w, env
 }
+
+// c15Base is the world the probe is a near-copy of (nil: the probe is the drawn world itself).
+var c15Base *world.World
 
 // C15Child is run in a fresh process: it regenerates the probe world from the tape prefix and
 // prints the hash of its first-thing transcript.
@@ -179,7 +206,16 @@ func runC15(c *Ctx) []Violation {
 			tr := run.Drive(o, rd, run.Opts{MaxReads: 400})
 			c.Events += int64(rd.Stats.Reads + len(tr.Entries))
 			hist = append(hist, "probe schema over reversed records")
-		case 6: // a near-copy of the probe's schema over the probe's own input: one flag flipped, one
+		case 6: // (the probe is a near-copy itself: the world it was made from goes first)
+			if c15Base != nil {
+				rd := simio.NewReader(c15Base.Input, simio.DrawPlan(c.T, c15Base.Input))
+				tr := run.Drive(c15Base, rd, run.Opts{MaxReads: 400})
+				c.Events += int64(rd.Stats.Reads + len(tr.Entries))
+				hist = append(hist, "the world the probe is a near-copy of: "+c15Base.Name)
+				c.Count("history.near-copy-schema-run", 1)
+				break
+			}
+			// a near-copy of the probe's schema over the probe's own input: one flag flipped, one
 			// string in another letter case or with a blank added, one value taken from a member of
 			// the same name - what a process-wide cache with a lossy key takes for the probe's schema
 			for try := 0; try < 3; try++ {
@@ -223,7 +259,11 @@ func runC15(c *Ctx) []Violation {
 		c.Nontrivial = true
 	}
 	// checksum clause 2: a replaced ingested value changes exactly that record's checksum
-	if len(w.LRecs) > 0 && w.Render != nil {
+	// (the two clauses below rest on what the generator knows about its own schema - which bytes are an
+	// ingested value, which records the filter lets through; a probe that is a near-copy of the
+	// generated schema is not described by that knowledge, so they are not evaluated on it)
+	modelValid := c15Base == nil
+	if modelValid && len(w.LRecs) > 0 && w.Render != nil {
 		c.T.Begin("c15.flip")
 		k := c.T.Intn("c15.flip.rec", len(w.LRecs))
 		fi := 1 + c.T.Intn("c15.flip.field", len(w.LRecs[k].Vals)-1)
@@ -308,7 +348,7 @@ func runC15(c *Ctx) []Violation {
 	// checksum clause 3: two values that differ in a byte which is no UTF-8 at all (a Latin-1 file read
 	// under the default encoding). The line-based formats and EDI ingest such bytes as they are - a
 	// custom function sees them - so they are ingested values like any other.
-	if len(w.LRecs) > 0 && w.Render != nil && w.Tag("encoding") == "" && c.T.Chance("c15.invalid-utf8-pair", 1, 5) &&
+	if modelValid && len(w.LRecs) > 0 && w.Render != nil && w.Tag("encoding") == "" && c.T.Chance("c15.invalid-utf8-pair", 1, 5) &&
 		(w.Format == "csv" || w.Format == "csv2" || w.Format == "fixed-length" || w.Format == "fixedlength2" || w.Format == "edi") {
 		c.T.Begin("c15.badbytes")
 		k := c.T.Intn("c15.badbytes.rec", len(w.LRecs))
